@@ -38,6 +38,7 @@ def cases(tier):
     leaves = {'double': D, 'double-unlimited': DU, 'double-absres': DA, 'double-deg': DDEG, 'int': I, 'int-deg': IDEG,
               'bool': B, 'enum': ENUM, 'scaled0.1': SC(0.1), 'scaled0.5': SC(0.5), 'scaled3': SC(3), 'scaled1e6': SC(1e6),
               'scaled0.001': SC(0.001), 'scaled2^-10': SC(2 ** -10), 'scaled1/3': SC(1 / 3), 'scaled1.000001': SC(1.000001)}
+    leaves['int-big'] = {'k': 'int', 'big': True}
     for n, s in leaves.items():
         out.append(case(n, s))
     for i, lit in enumerate(STRS):
